@@ -596,7 +596,7 @@ impl World {
                 self.hs.insert(b, right);
                 out
             }
-            ["same", _, _] => "ok".into(),
+            ["same", _, _] | ["samesnap", _, _] => "ok".into(),
             ["script", a, t] => {
                 let (Some(a), Some(text)) = (parse_handle(a), parse_text_tok(t)) else { return "bad-op".into() };
                 match self.hs.get_mut(&a) {
